@@ -243,6 +243,8 @@ package mq
 
 //@ func (*Publish).dump
 //@   requires w != nil
+//@   requires untainted(p.topicName) && untainted(p.responseTopic) && untainted(p.correlationData) && untainted(p.contentType) && untainted(p.payload)   #C18
+//@   requires forall k in 0..len(p.UserProperties): untainted(p.UserProperties[k][0]) && untainted(p.UserProperties[k][1])   #C18
 //@   assigns $writes
 
 //@ func (*PubAck).dump
@@ -287,6 +289,7 @@ package mq
 
 //@ func (*UserProperties).dump
 //@   requires w != nil
+//@   requires forall k in 0..len(*p): untainted((*p)[k][0]) && untainted((*p)[k][1])   #C18
 //@   assigns $writes
 
 //@ func (*Connect).WriteTo
